@@ -13,7 +13,7 @@ import json, os, shutil, subprocess, sys, tempfile, time
 from pathlib import Path
 
 ROOT = Path(__file__).resolve().parent.parent
-SEEDED = ROOT / "seeded"
+SEEDED = ROOT / os.environ.get("SEEDED_DIR", "seeded")
 
 
 def sh(cmd, cwd=None, env=None, timeout=3600):
